@@ -4,7 +4,7 @@
    AtLeast.assume, flatten, evaluate_propositions, evaluate).  Spec side: Sem.eval (the
    arithmetic truth function) and Sem.eval_d (same, but a node whose own variable is fixed by the
    interpretation or by its declared bounds takes that fixed value). *)
-Require Import Puan.Base Puan.Plog Puan.Sem Puan.AssumeFacts Puan.Errors Puan.ErrorsSpec Puan.Validated Puan.PresentFacts.
+Require Import Puan.Base Puan.Plog Puan.Sem Puan.AssumeFacts Puan.Errors Puan.ErrorsSpec Puan.Validated Puan.PresentFacts Puan.ChildlessFacts.
 Open Scope string_scope.
 
 (* Every entry (id, (lo,hi)) of the dictionary returned for a total interpretation is the
@@ -72,3 +72,22 @@ Example C03_nonvacuous :
   eval c03_env c03_m = 1 /\ errors2 c03_m = [] /\ visible_ids c03_d c03_m = ["A"; "B"; "x"; "y"; "z"].
 Proof. split; [|split; [|split; [|split; [|split; [|split; [|split]]]]]]; try (vm_compute; reflexivity); cbn; repeat split; try lia; try (right; lia); try discriminate. Qed.
 Print Assumptions C03_nonvacuous.
+
+(* A compound without sub-propositions (All(), Any(), AtLeast(k, []), a configurator without rules): the sum over no operand
+   is 0, so unless its own variable is fixed (by the interpretation or by its declared bounds) it evaluates to the constant
+   [value <= 0] - All() to 1, Any() to 0 - whatever the interpretation holds. *)
+Theorem C03_childless :
+  forall (d : interp) (m : meta) (i : ident) (g : bool) (lo hi s v : Z),
+    let p := Node m i g lo hi s v [] in
+    ok_signs p = true -> single_def p ->
+    fst (dbounds d i lo hi) <> snd (dbounds d i lo hi) ->
+    evaluate d p = Some (if (v <=? 0)%Z then 1%Z else 0%Z, if (v <=? 0)%Z then 1%Z else 0%Z).
+Proof. exact childless_evaluate. Qed.
+Print Assumptions C03_childless.
+
+(* Non-vacuity: All() = +()>=0 evaluates to (1,1) and Any() = +()>=1 to (0,0), under an interpretation that names other ids. *)
+Example C03_childless_nonvacuous :
+  evaluate [("x", (1, 1))] (Node (mk KAll) "A" false 0 1 1 0 []) = Some (1, 1)%Z /\
+  evaluate [("x", (1, 1))] (Node (mk KAny) "B" false 0 1 1 1 []) = Some (0, 0)%Z.
+Proof. split; vm_compute; reflexivity. Qed.
+Print Assumptions C03_childless_nonvacuous.
